@@ -75,6 +75,7 @@ type fsEvent struct {
 	Ctrs   []*fsCtr        `json:"ctrs,omitempty"`
 	Config json.RawMessage `json:"config,omitempty"`
 	Tag    string          `json:"tag,omitempty"`
+	Stale  int             `json:"stale,omitempty"` // Restart: start from the cache file as it was this many events ago
 }
 
 type fsScript struct {
@@ -151,8 +152,52 @@ type fsOut struct {
 	Bln    interface{}   `json:"bln,omitempty"`
 	Zones  []fsZone      `json:"zones"`
 	Saved  int           `json:"saved"`
+	Disk   []fsDiskCtr   `json:"disk"`
 	Classes map[string][]int `json:"cpuclasses,omitempty"`
 	Calls  [][]string    `json:"calls"`
+}
+
+// what the cache file says about a container (told fields only)
+type fsDiskCtr struct {
+	ID     string `json:"id"`
+	Cpus   string `json:"cpus"`
+	Mems   string `json:"mems"`
+	Shares uint64 `json:"shares"`
+}
+
+type fsDiskFile struct {
+	Containers map[string]struct {
+		Ctr struct {
+			Linux struct {
+				Resources struct {
+					Cpu struct {
+						Cpus   string `json:"cpus"`
+						Mems   string `json:"mems"`
+						Shares *struct {
+							Value uint64 `json:"value"`
+						} `json:"shares"`
+					} `json:"cpu"`
+				} `json:"resources"`
+			} `json:"linux"`
+		}
+	}
+}
+
+func readDisk(raw []byte) []fsDiskCtr {
+	out := []fsDiskCtr{}
+	var f fsDiskFile
+	if len(raw) == 0 || json.Unmarshal(raw, &f) != nil {
+		return out
+	}
+	for id, c := range f.Containers {
+		d := fsDiskCtr{ID: id, Cpus: canonSet(c.Ctr.Linux.Resources.Cpu.Cpus), Mems: canonSet(c.Ctr.Linux.Resources.Cpu.Mems)}
+		if c.Ctr.Linux.Resources.Cpu.Shares != nil {
+			d.Shares = c.Ctr.Linux.Resources.Cpu.Shares.Value
+		}
+		out = append(out, d)
+	}
+	sort.Slice(out, func(i, j int) bool { return out[i].ID < out[j].ID })
+	return out
 }
 
 type fakeStub struct {
@@ -594,6 +639,8 @@ func runScript(t *testing.T, sc *fsScript, w *bufio.Writer) {
 	out.Reply.Class = "ok"
 	inst.snapshot(out)
 	enc.Encode(out)
+	cacheFile := filepath.Join(dir, "state", "cache")
+	saves := [][]byte{}
 	for i := range sc.Events {
 		ev := &sc.Events[i]
 		out := &fsOut{Script: sc.Name, Seq: i, Op: ev.Op, Tag: ev.Tag}
@@ -604,6 +651,9 @@ func runScript(t *testing.T, sc *fsScript, w *bufio.Writer) {
 				cfg = ev.Config
 			}
 			pods, ctrs := inst.pods, inst.ctrs
+			if k := len(saves) - 1 - ev.Stale; ev.Stale > 0 && k >= 0 && len(saves[k]) > 0 {
+				os.WriteFile(cacheFile, saves[k], 0o644)
+			}
 			ninst, err := newInstance(t, dir, sc.Policy, sc.Machine, cfg)
 			if err != nil {
 				out.Reply = fsReply{Class: "err", Msg: err.Error()}
@@ -635,6 +685,9 @@ func runScript(t *testing.T, sc *fsScript, w *bufio.Writer) {
 			}()
 			inst.snapshot(out)
 		}()
+		raw, _ := os.ReadFile(cacheFile)
+		saves = append(saves, raw)
+		out.Disk = readDisk(raw)
 		enc.Encode(out)
 		w.Flush()
 		if out.Reply.Class == "panic" {
